@@ -637,6 +637,11 @@ void CombinatoryProcess::formatExpression(std::ostream &stream, size_t indentati
 
 	if (const hlim::Node_Shift* shift = dynamic_cast<const hlim::Node_Shift*>(nodePort.node)) {
 
+		// numeric_std defines SHIFT_LEFT/SHIFT_RIGHT and to_integer for UNSIGNED only: always format operand and amount
+		// as UNSIGNED and cast the result if the target is a STD_LOGIC_VECTOR (same scheme as for arithmetic nodes).
+		if (context == VHDLDataType::STD_LOGIC_VECTOR)
+			stream << "STD_LOGIC_VECTOR(";
+
 		if (shift->getDirection() == hlim::Node_Shift::dir::left)
 			stream << "SHIFT_LEFT(";
 		else
@@ -644,10 +649,13 @@ void CombinatoryProcess::formatExpression(std::ostream &stream, size_t indentati
 
 		HCL_ASSERT(shift->getFillMode() == hlim::Node_Shift::fill::zero);
 
-		formatExpression(stream, indentation, comments, shift->getDriver(hlim::Node_Shift::INPUT_OPERAND), dependentInputs, context);
+		formatExpression(stream, indentation, comments, shift->getDriver(hlim::Node_Shift::INPUT_OPERAND), dependentInputs, VHDLDataType::UNSIGNED);
 		stream << ", to_integer(";
-		formatExpression(stream, indentation, comments, shift->getDriver(hlim::Node_Shift::INPUT_AMOUNT), dependentInputs, context);
+		formatExpression(stream, indentation, comments, shift->getDriver(hlim::Node_Shift::INPUT_AMOUNT), dependentInputs, VHDLDataType::UNSIGNED);
 		stream << "))";
+
+		if (context == VHDLDataType::STD_LOGIC_VECTOR)
+			stream << ')';
 		return;
 	}
 
